@@ -6,7 +6,7 @@ rm -rf _build
 mkdir -p _build ../build
 cd _build
 timeout 600 coqc -R ../../coq V ../../coq/Extract/Extract.v > extract.log 2>&1 || { cat extract.log; exit 1; }
-cp ../zutil.ml ../hgdrv.ml ../storedrv.ml ../crashdrv.ml ../gatedrv.ml ../proxydrv.ml ../ffdrv.ml ../wiredrv.ml ../hostiledrv.ml ../handlers.ml ../main.ml .
+cp ../zutil.ml ../hgdrv.ml ../resetdrv.ml ../storedrv.ml ../crashdrv.ml ../gatedrv.ml ../proxydrv.ml ../ffdrv.ml ../wiredrv.ml ../hostiledrv.ml ../handlers.ml ../main.ml .
 files=$(ocamlfind ocamldep -sort *.mli *.ml)
 ocamlfind ocamlopt -O3 -w -a $files -o ../../build/runner 2>/dev/null || \
 ocamlfind ocamlopt -w -a $files -o ../../build/runner
